@@ -60,12 +60,34 @@ def deepAt : Soil D → StepTrace → D
   | .monthly f, t => f t.monthBefore
   | .windowMean d, _ => d
 
-/-- `SimParam(...)` + the loop of `simulate` on the window of rural rows `rows`. -/
+/-- The control trace up to (not including) the first step at which the driver itself fails
+    (forcing row missing: the window is shorter than the run, e.g. it crosses 31 December; or the
+    timestep exception of `update_date`), together with that error. `driver` is the special case
+    "no error". -/
+def traceLoop (dt N rows : Nat) : Nat → Nat → Clock → Nat → List StepTrace × Option DrvErr
+  | 0, _, _, _ => ([], none)
+  | steps + 1, it, c, n =>
+    match drvStep dt N rows it c n with
+    | .error e => ([], some e)
+    | .ok (c', n', tr) =>
+      let r := traceLoop dt N rows steps (it + 1) c' n'
+      (tr :: r.1, r.2)
+
+/-- `SimParam(...)` + the loop of `simulate` on the window of rural rows `rows`: the steps before a
+    driver-level failure are executed (and their records stored) before the exception surfaces. -/
 def simulate (P : Phys S R D Rec E) (soil : Soil D) (dt M Dy days : Nat) (rows : List R) (s0 : S) :
     Outcome S Rec E :=
-  match driver { dt := dt, M := M, D := Dy, days := days, rows := rows.length } with
-  | .error e => .error ([], .drv e)
-  | .ok tr => runSteps P (deepAt soil) rows tr s0 []
+  match Clock.create dt M Dy with
+  | .error .zerodiv => .error ([], .drv .zerodiv)
+  | .error .timestep => .error ([], .drv .timestep)
+  | .ok c0 =>
+    let r := traceLoop dt (24 * days) rows.length (nt dt days - 1) 1 c0 0
+    match runSteps P (deepAt soil) rows r.1 s0 [] with
+    | .error x => .error x
+    | .ok (s, recs) =>
+      match r.2 with
+      | none => .ok (s, recs)
+      | some e => .error (recs, .drv e)
 
 /-- The window `Weather` cuts out of the data rows of the rural file (header excluded) and the
     projection onto the modelled columns. -/
